@@ -94,6 +94,7 @@ func specInterrupts() bool {
 //@ invariant [INV-tagmaps] forall(k, 0, 6, has(shortTagMap, k) && shortTagMap[k] != nil)
 //@ invariant [INV-colors] forall(k, implies(has(mLevelColors, Level(k)), len(mLevelColors[Level(k)]) >= 1))
 //@ invariant [INV-width] 1 <= levelOutputWidth && levelOutputWidth <= 5
+//@ invariant [INV-hex] len(hex) == 16
 
 // ---------------------------------------------------------------- C01 gating / C12 termination
 
@@ -1900,6 +1901,15 @@ func specTellable(m LogWriter) bool {
 //@   ensures [C02.prealloc] len(s.buf) == old(len(s.buf)) && forall(i, 0, len(s.buf), s.buf[i] == old(s.buf[i])) && grown(s.buf, old(s.buf))
 
 
+// dedupeSlice keeps, of every run of equal neighbours, the last element (C07 "last occurrence wins",
+// given a stable sort), in place.
+//@ func dedupeSlice[github.com/hedzr/logg/slog.Attrs github.com/hedzr/logg/slog.Attr]
+//@   props C02 C07
+//@   auto
+//@   ensures [C07.dedupe-len] implies(len(x) == 0, len(result) == 0) && implies(len(x) > 0, 1 <= len(result) && len(result) <= len(x) && samearray(result, x))
+//@   loop 1 invariant [C07.dedupe-idx] 1 <= i && i <= len(x) && 0 <= j && j < i
+
+
 // ---- generated by /verif/tools/gen_auto.py: synthesized contracts for the no-panic sweep of printImpl's call tree
 //@ func convertLevelToLogSlog
 //@   props C02
@@ -1969,10 +1979,6 @@ func specTellable(m LogWriter) bool {
 //@   props C02
 //@   auto
 
-//@ func dedupeSlice[github.com/hedzr/logg/slog.Attrs github.com/hedzr/logg/slog.Attr]
-//@   props C02
-//@   auto
-
 //@ func (colorizeToolS).echoColorAndBg
 //@   props C02
 //@   auto
@@ -1994,10 +2000,6 @@ func specTellable(m LogWriter) bool {
 //@   auto
 
 //@ func (*PrintCtx).appendError
-//@   props C02
-//@   auto
-
-//@ func (*Source).Extract
 //@   props C02
 //@   auto
 
